@@ -123,6 +123,11 @@ def run_path(hname, params, prefix, validate=False):
                     break
             rec['validated'] = okv
             rec['sample'] = _decode_vals(vals)
+            if 'document' in I.notes:
+                try:
+                    rec['sample']['document'] = bytes(implmod.concretize(I.notes['document'], m)).decode(errors='replace')
+                except Exception:
+                    pass
         except (Infeasible, Unsupported):
             pass
     return rec
